@@ -645,6 +645,82 @@ def override_part(ctx):
     return acc
 
 
+def config_values_part(ctx):
+    """values a config may hold beyond plain numbers and strings: an explicit
+    null / false / 0 / empty list for an option that the command line sets,
+    and a package setting whose effect is only visible in the run itself"""
+    from evo import entry_points
+    from evo.tools import settings
+    from mc.checks import c15
+    acc = Acc()
+    wd = tempfile.mkdtemp(dir=os.getcwd(), prefix="c18v_")
+    c15.write_fixture(wd)
+    cfg = os.path.join(wd, "v.json")
+    table = [
+        ("ape", "t_start", None, ["--t_start", "1.2"]),
+        ("ape", "save_results", None, ["--save_results", "x.zip"]),
+        ("ape", "project_to_plane", None, ["--project_to_plane", "xy"]),
+        ("ape", "align", False, ["--align"]),
+        ("ape", "n_to_align", 0, ["--n_to_align", "5"]),
+        ("rpe", "delta", 0, ["--delta", "3"]),
+        ("rpe", "all_pairs", False, ["--all_pairs"]),
+        ("traj", "ref", None, ["--ref", "ref.txt"]),
+        ("traj", "downsample", None, ["--downsample", "4"]),
+        ("traj", "t_offset", 0.0, ["--t_offset", "0.5"]),
+    ]
+    for tool, key, val, argv in table:
+        with open(cfg, "w") as f:
+            json.dump({key: val}, f)
+        files = ["tum", "ref.txt", "est1.txt"] if tool != "traj" else [
+            "tum", "est1.txt"]
+        saved = dict(settings.SETTINGS)
+        try:
+            args = cli.parse(tool, files + argv + ["-c", cfg])
+            args = entry_points.merge_config(args)
+            got = getattr(args, key)
+        finally:
+            for k in list(settings.SETTINGS.keys()):
+                if k not in saved:
+                    dict.__delitem__(settings.SETTINGS, k)
+            for k, v in saved.items():
+                dict.__setitem__(settings.SETTINGS, k, v)
+        acc.count("evaluations")
+        acc.count("transitions")
+        acc.count("nontrivial")
+        acc.outcome("config-value")
+        if got != val or type(got) is not type(val):
+            acc.violation("config-values", "evo_%s %s -c {%s: %s}: the run "
+                          "uses %r, the config file has priority" %
+                          (tool, " ".join(argv), key, json.dumps(val), got),
+                          {"tool": tool, "key": key}, {"kind": "cfg-value"})
+    # a package setting that only shows in the run: the console log format
+    old = os.getcwd()
+    os.chdir(wd)
+    try:
+        with open(cfg, "w") as f:
+            json.dump({"console_logging_format": "CFGPFX|%(message)s"}, f)
+        for tool, argv in (("ape", ["tum", "ref.txt", "est1.txt"]),
+                           ("rpe", ["tum", "ref.txt", "est1.txt"]),
+                           ("traj", ["tum", "est1.txt"])):
+            res = cli.run_cli(tool, argv + ["-c", "v.json"])
+            acc.count("evaluations")
+            acc.count("transitions")
+            acc.count("nontrivial")
+            acc.outcome("config-log-format")
+            lines = [l for l in res.stdout.splitlines() if l.strip()]
+            if not res.ok or not any(l.startswith("CFGPFX|") for l in lines):
+                acc.violation(
+                    "config-values", "evo_%s -c {console_logging_format: "
+                    "'CFGPFX|...'}: the setting from the config file has no "
+                    "effect on the run (%s; first output line %r)" %
+                    (tool, res.outcome(), lines[:1]),
+                    {"tool": tool, "key": "console_logging_format"},
+                    {"kind": "cfg-setting-effect"})
+    finally:
+        os.chdir(old)
+    return acc
+
+
 def _non_default(dv):
     if isinstance(dv, bool):
         return not dv
@@ -726,6 +802,7 @@ def run(ctx):
     p = priority_part(ctx)
     p.merge(override_part(ctx))
     p.merge(reset_each_part(ctx))
+    p.merge(config_values_part(ctx))
     acc.merge(p)
     acc.counters["states"] = st + p.counters["evaluations"]
     acc.counters["evaluations"] = acc.counters["transitions"]
@@ -760,6 +837,11 @@ def replay(part, case):
         class _C(object):
             pass
         a = override_part(_C())
+        return [v["msg"] for v in a.violations if v["case"] == case]
+    if part == "config-values":
+        class _C(object):
+            pass
+        a = config_values_part(_C())
         return [v["msg"] for v in a.violations if v["case"] == case]
     if part == "reset_each":
         return run_reset_subset(case["keys"])
